@@ -83,6 +83,7 @@ type Results struct {
 	BoundExceeded  map[string]int64 `json:"bound_exceeded"`
 	Queries        SolverStats      `json:"queries"`
 	AssertQueries  int64            `json:"assert_queries"`
+	CacheHits      int64            `json:"cache_hits"`
 	Functions      map[string]int64 `json:"functions"`
 	InstrKinds     map[string]int64 `json:"instr_kinds"`
 	Intrinsics     map[string]int64 `json:"intrinsics"`
@@ -182,6 +183,7 @@ type Path struct {
 	crashCatch int
 	objN      int
 	afterFunc []afterFuncRec
+	known     map[string]bool
 }
 
 // Run explores harness function fn.
@@ -245,6 +247,7 @@ func (e *Engine) mergeWorker(w *Worker) {
 	r.Blocks += s.Blocks
 	r.Decisions += s.Decisions
 	r.AssertQueries += s.AssertQueries
+	r.CacheHits += s.CacheHits
 	addCounts(r.Functions, s.Functions)
 	addCounts(r.InstrKinds, s.InstrKinds)
 	addCounts(r.Intrinsics, s.Intrinsics)
@@ -315,7 +318,7 @@ func (w *Worker) runPath(fn *ssa.Function, prefix []Decision) {
 	e := w.eng
 	w.epoch++
 	p := &Path{w: w, eng: e, prefix: prefix, ndCount: map[string]int{}, tags: map[string]*Term{},
-		done: make(chan interface{}, 1), syncSt: map[*Value]*syncState{}, atomVals: map[*Value]Value{}}
+		known: map[string]bool{}, done: make(chan interface{}, 1), syncSt: map[*Value]*syncState{}, atomVals: map[*Value]Value{}}
 	w.solver.BeginPath()
 	p.clock = p.freshVar("clock", 64)
 	// keep the clock well inside the positive int64 range so that deadline
@@ -441,6 +444,27 @@ func (p *Path) branch(cond *Term) bool {
 	if cond.Op == OpConst {
 		return cond.Val != 0
 	}
+	// literal already decided on this path?
+	neg := false
+	lit := cond
+	if lit.Op == OpNot {
+		neg, lit = true, lit.Args[0]
+	}
+	k := lit.Key()
+	if k != "" {
+		if v, ok := p.known[k]; ok {
+			p.w.res.CacheHits++
+			return v != neg
+		}
+	}
+	r := p.branch1(cond)
+	if k != "" {
+		p.known[k] = r != neg
+	}
+	return r
+}
+
+func (p *Path) branch1(cond *Term) bool {
 	s := p.w.solver
 	if p.pos < len(p.prefix) {
 		d := p.prefix[p.pos]
